@@ -255,8 +255,48 @@ func checkC15(c *km.Ctx) {
 		r.Add("R-C15-2", km.FuncName(cp), "one transaction on the destination", c.P.Pos(cp.Pos()), "exactly one destination.Begin() and one Commit()", sprintf("begins=%d commits=%d", len(begins), len(commits)), okOne)
 		if okOne {
 			tx := begins[0]
+			// the copy may be split into helpers that work on the caller's transaction: a helper of the module that
+			// cp calls with the transaction as an argument is scanned as part of cp, its parameters standing for the
+			// arguments of that call and its statements placed, for ordering, at the call
+			type frame struct {
+				fn   *ssa.Function
+				bind map[*ssa.Parameter]ssa.Value
+				at   ssa.Instruction // the call in cp (nil for cp itself)
+			}
+			frames := []frame{{fn: cp}}
+			for _, ci := range km.CallsIn(cp) {
+				g := km.StaticCallee(ci.Common())
+				if g == nil || g.Blocks == nil || !c.InModule(g) || g == cp {
+					continue
+				}
+				args := km.CallArgs(ci.Common())
+				passesTx := false
+				for _, a := range args {
+					if cl, idx := callRes(km.Unwrap(a)); cl == tx && idx == 0 {
+						passesTx = true
+					}
+				}
+				if !passesTx || len(args) != len(g.Params) {
+					continue
+				}
+				b := map[*ssa.Parameter]ssa.Value{}
+				for i, q := range g.Params {
+					b[q] = km.Unwrap(args[i])
+				}
+				frames = append(frames, frame{fn: g, bind: b, at: ci})
+			}
+			var cur frame
+			res := func(v ssa.Value) ssa.Value {
+				v = km.Unwrap(v)
+				if q, ok := v.(*ssa.Parameter); ok && cur.bind != nil {
+					if a, ok := cur.bind[q]; ok {
+						return a
+					}
+				}
+				return v
+			}
 			isTx := func(v ssa.Value) bool {
-				cl, idx := callRes(km.Unwrap(v))
+				cl, idx := callRes(res(v))
 				return cl == tx && idx == 0
 			}
 			isTxStmt := func(v ssa.Value) bool {
@@ -282,14 +322,30 @@ func checkC15(c *km.Ctx) {
 				at    ssa.Instruction
 			}
 			var inserts []ins
-			for _, ci := range km.CallsIn(cp) {
+			type sqlCall struct {
+				ci ssa.CallInstruction
+				fr frame
+			}
+			var sqlCalls []sqlCall
+			for _, fr := range frames {
+				for _, ci := range km.CallsIn(fr.fn) {
+					sqlCalls = append(sqlCalls, sqlCall{ci, fr})
+				}
+			}
+			for _, sc := range sqlCalls {
+				ci := sc.ci
+				cur = sc.fr
+				at := ssa.Instruction(ci)
+				if cur.at != nil {
+					at = cur.at
+				}
 				n := km.CalleeFull(ci.Common())
 				kind, method, ok := sqlRecv(n)
 				if !ok {
 					continue
 				}
 				a := km.CallArgs(ci.Common())
-				recv := km.Unwrap(a[0])
+				recv := res(a[0])
 				switch kind {
 				case "DB":
 					if recv == ssa.Value(dest) && method != "Begin" && method != "BeginTx" {
@@ -305,20 +361,20 @@ func checkC15(c *km.Ctx) {
 						if method == "ExecContext" {
 							qi = 2
 						}
-						for _, t := range stmtTexts(c, a[qi]) {
+						for _, t := range stmtTexts(c, res(a[qi])) {
 							if m := tableRE.FindStringSubmatch(t); m != nil && strings.HasPrefix(strings.ToLower(strings.TrimSpace(t)), "delete") {
 								if strings.Contains(strings.ToLower(t), " where ") {
 									continue // a partial delete does not empty the table
 								}
-								deleted[strings.ToLower(m[1])] = ci
+								deleted[strings.ToLower(m[1])] = at
 							}
 						}
 						r.Add("R-C15-2", km.FuncName(cp), "tx.Exec", posOf(c, ci), "executed inside the synchronisation transaction", "tx."+method, true)
 					}
 					if method == "Prepare" || method == "PrepareContext" {
-						for _, t := range stmtTexts(c, a[len(a)-1]) {
+						for _, t := range stmtTexts(c, res(a[len(a)-1])) {
 							if m := tableRE.FindStringSubmatch(t); m != nil && regexp.MustCompile(`(?i)^\s*(insert|replace)`).MatchString(t) {
-								inserts = append(inserts, ins{strings.ToLower(m[1]), ci})
+								inserts = append(inserts, ins{strings.ToLower(m[1]), at})
 							}
 						}
 					}
@@ -369,8 +425,9 @@ func checkC15(c *km.Ctx) {
 				}
 				// only result sets that are iterated
 				iterated := false
-				for _, c2 := range km.CallsIn(cp) {
-					if km.CalleeFull(c2.Common()) == "(*database/sql.Rows).Next" && km.Unwrap(c2.Common().Args[0]) == rows {
+				for _, sc := range sqlCalls {
+					cur = sc.fr
+					if km.CalleeFull(sc.ci.Common()) == "(*database/sql.Rows).Next" && res(sc.ci.Common().Args[0]) == rows {
 						iterated = true
 					}
 				}
@@ -378,12 +435,12 @@ func checkC15(c *km.Ctx) {
 					continue
 				}
 				nRows++
-				errChecked := km.Prim{Name: "rows.Err() == nil", Direct: func(f km.Fact) bool {
+				errChecked := km.Prim{Name: "rows.Err() == nil", Rel: func(f km.Fact, resolve func(ssa.Value) ssa.Value) bool {
 					if f.Op != token.EQL || !km.IsNilConst(f.Y) {
 						return false
 					}
 					ec, ok := f.X.(*ssa.Call)
-					return ok && km.CalleeFull(ec.Common()) == "(*database/sql.Rows).Err" && km.Unwrap(ec.Common().Args[0]) == rows
+					return ok && km.CalleeFull(ec.Common()) == "(*database/sql.Rows).Err" && resolve(ec.Common().Args[0]) == rows
 				}}
 				st := c.F.At(cm)
 				okErr := len(st) > 0 && st.All(func(k km.Conj) bool { return s.Holds(k, errChecked) })
